@@ -27,7 +27,7 @@ def check(an, rep, tier):
     rep.trusted = ['orthogonality axioms of numpy.linalg.qr (reduced) and '
                    'scipy.linalg.rq (economic)']
     ds = (2, 3) if tier == 'quick' else (2, 3, 4)
-    wh = {'transformation.orthogonalize', 'transformation.orthogonalize_left',
+    wh = {'utils._reshape', 'transformation.orthogonalize', 'transformation.orthogonalize_left',
           'transformation.orthogonalize_right'}
     for d in ds:
         old = [Poly.const(1)] + [Poly.sym('Y.r%d' % k) for k in range(1, d)] \
@@ -50,15 +50,21 @@ def check(an, rep, tier):
                          for s, w in zip(states, want))
                 known_bad = any(
                     (w and s is not None and s != w) or
-                    (not w and s in ('cols3', 'rows3'))
-                    for s, w in zip(states, want))
+                    (not w and s in ('cols3', 'rows3')) or
+                    (w and s is None and c.note == 'input')
+                    for s, w, c in zip(states, want, rv.items))
+                untouched = [i for i, (s, w, c) in enumerate(
+                    zip(states, want, rv.items))
+                    if w and s is None and c.note == 'input']
                 rep.add('O-producer', r.qualname, 'core states for pivot %s '
                         'at d=%d' % (k, d), 'ok' if ok else
                         ('violation' if known_bad else 'unknown'),
                         '' if ok else 'core states %s, expected %s (left of '
                         'the pivot orthonormal columns, right of it '
-                        'orthonormal rows, the pivot carries the weights)'
-                        % (states, want))
+                        'orthonormal rows, the pivot carries the weights)%s'
+                        % (states, want, '; core(s) %s are unmodified copies '
+                           'of the input cores' % untouched if untouched
+                           else ''))
                 bonds = [c.dims[2] for c in rv.items[:-1]]
                 grow = [i + 1 for i, (b, o) in enumerate(zip(bonds, old[1:-1]))
                         if b is not None and not known_le(b, o)]
